@@ -19,6 +19,7 @@ CONSTANTS Users,               \* user names the client may try
           GssHonoursCallback,  \* FALSE = pinned tree: both GSS branches hard-wire AUTH_SUCCESSFUL
           BlobOmits,           \* "" | "sid" | "user" | "service" | "alg" | "key": field left out of the signed blob
           KeepsResultAfterBadSig,  \* TRUE = a failed verify_ssh_sig does not reset result
+          RekeyResetsAuthState,   \* TRUE = a key re-exchange before authentication installs a fresh AuthHandler
           KeepsResultOnForeignLabel,  \* TRUE = a signature blob labelled with another algorithm than the request's keeps result
           ProbeAuthenticates,  \* TRUE = a PK_OK probe marks the session authenticated
           PinsUser,            \* FALSE = username comparison dropped
@@ -63,6 +64,7 @@ Continuations ==
        {[Blank EXCEPT !.k = "info_response", !.cb = c] : c \in Results \cup {"query"}}
   \cup {[Blank EXCEPT !.k = "gss_token", !.tok = t, !.cb = "ok"] : t \in Toks}
   \cup {[Blank EXCEPT !.k = "gss_mic", !.mic = mc, !.cb = c] : mc \in MicKinds, c \in Results}
+  \cup {[Blank EXCEPT !.k = "rekey", !.tok = t] : t \in {"client", "server"}}     \* a complete key re-exchange, started by t
 Messages == (UNION {UserRequests(u, sv) : u \in Users, sv \in Services}) \cup Continuations
 \* a small alphabet of attempts that do not end in success, to walk up to the failure cap
 CapMessages == LET u == Primary   v == CHOOSE x \in Users : x # u   sv == "ssh-connection" IN
@@ -70,7 +72,8 @@ CapMessages == LET u == Primary   v == CHOOSE x \in Users : x # u   sv == "ssh-c
    [Rq(u, sv, "password") EXCEPT !.cb = "ok", !.change = TRUE],
    [Rq(u, sv, "publickey") EXCEPT !.cb = "ok", !.sig = "corrupt"], [Rq(u, sv, "publickey") EXCEPT !.cb = "ok", !.sig = "absent"],
    [Rq(u, sv, "keyboard-interactive") EXCEPT !.cb = "query"], [Blank EXCEPT !.k = "info_response", !.cb = "fail"],
-   [Rq(v, sv, "none") EXCEPT !.cb = "ok"], [Rq(u, sv, "none") EXCEPT !.cb = "ok"]}
+   [Rq(v, sv, "none") EXCEPT !.cb = "ok"], [Rq(u, sv, "none") EXCEPT !.cb = "ok"],
+   [Blank EXCEPT !.k = "rekey", !.tok = "client"]}
 
 \* ------------------------------------------------------------------ symbolic signatures
 \* what the signature of a publickey request was made over, and by which key.  "K" is the key named in the
@@ -202,8 +205,18 @@ GssMic(s, q) ==
 \* Transport.run: _expected_packet, then dispatch through the current auth handler's table
 WireType(q) == CASE q.k = "request" -> 50 [] q.k = "gss_mic" -> 66 [] OTHER -> 61
 Crash(s) == Die(s, <<>>, <<>>)
+\* A key re-exchange between two authentication messages (KEXINIT ... NEWKEYS, Transport._negotiate_keys /
+\* _parse_newkeys).  The authentication state - pinned user, failure counter - lives in the AuthHandler object,
+\* which _parse_newkeys creates only when there is none: a re-exchange changes nothing.  While a reply to the
+\* GSS-API exchange is expected, KEXINIT is not among the expected types and ends the connection.
+Rekey(s) ==
+    IF s.expect # "any" THEN Crash(s)
+    ELSE IF RekeyResetsAuthState /\ ~s.authenticated
+      THEN Quiet([s EXCEPT !.authUser = "", !.failCount = 0, !.mode = "plain"])
+    ELSE Quiet(s)
 Handle(c, s0, q) ==
     IF ~s0.alive THEN Quiet(s0)
+    ELSE IF q.k = "rekey" THEN Rekey(s0)
     ELSE IF s0.expect = "tok" /\ WireType(q) = 66 THEN Crash(s0)              \* MessageOrderError / SSHException
     ELSE
       LET s == [s0 EXCEPT !.expect = "any"] IN
